@@ -403,9 +403,13 @@ def lowSurrogateC (g6 : Bool) (r : Nat) (v b : Bytes) : Res (Option (Bytes × By
       let h2 ← slice? v 2 6                                                    -- :2260 v[2:6]
       match hexDigitsC h2 0 with
       | none => pure none                                                      -- :2268
-      | some r2 => do
-        let v ← sliceFrom? v 6                                                 -- :2273 v = v[6:]
-        pure (some (v, b ++ encodeRune (Json.utf16Decode r r2)))               -- :2272 utf16.DecodeRune, :2276 WriteRune
+      | some r2 =>
+        -- :2272 r = utf16.DecodeRune(r, r2); FX28: `if r == unicode.ReplacementChar { return "", err }` — the two
+        -- escapes are not a high surrogate followed by a low one
+        if Json.utf16Decode r r2 = 0xFFFD then pure none
+        else do
+          let v ← sliceFrom? v 6                                               -- :2273 v = v[6:] (after FX28: four lines further down)
+          pure (some (v, b ++ encodeRune (Json.utf16Decode r r2)))             -- :2276 WriteRune
 
 /-- the `switch v[0] { … }` of the loop of `parseQuotedIdentifier` (parser.go:2205-2279): `none` is the error return,
     `some (v, b)` the state after the switch.  `g5 = false` drops `if len(v) < 5` (:2231), `g6 = false` drops
@@ -453,7 +457,9 @@ def quotedSwitch (c : Nat) (v acc : Bytes) : Option (Bytes × Bytes) :=
         | 0x5C :: 0x75 :: v'' =>
           (match Json.hex4 v'' with
            | none => none
-           | some (r2, v3) => some (v3, acc ++ encodeRune (Json.utf16Decode r r2)))
+           | some (r2, v3) =>
+             if Json.utf16Decode r r2 = 0xFFFD then none
+             else some (v3, acc ++ encodeRune (Json.utf16Decode r r2)))
         | _ => none
       else some (v', acc ++ encodeRune r)
   else none
@@ -508,13 +514,20 @@ theorem quotedLoop_succ (fuel : Nat) (c : Nat) (v acc : Bytes) :
           simp only []
           cases Json.hex4 v'' with
           | none => rfl
-          | some q => rfl
+          | some q =>
+            obtain ⟨r2, v3⟩ := q
+            simp only []
+            by_cases hd : Json.utf16Decode r r2 = 0xFFFD
+            · rw [if_pos hd, if_pos hd]
+            · rw [if_neg hd, if_neg hd]; rfl
         · rename_i hno
           have e : (match v' with
               | 0x5C :: 0x75 :: v'' =>
                 (match Json.hex4 v'' with
                  | none => none
-                 | some (r2, v3) => some (v3, acc ++ encodeRune (Json.utf16Decode r r2)))
+                 | some (r2, v3) =>
+                   if Json.utf16Decode r r2 = 0xFFFD then none
+                   else some (v3, acc ++ encodeRune (Json.utf16Decode r r2)))
               | _ => (none : Option (Bytes × Bytes))) = none := by
             split
             · exact (hno _ rfl).elim
@@ -563,7 +576,9 @@ def lowSurrogate (r : Nat) (v acc : Bytes) : Option (Bytes × Bytes) :=
   | 0x5C :: 0x75 :: v'' =>
     (match Json.hex4 v'' with
      | none => none
-     | some (r2, v3) => some (v3, acc ++ encodeRune (Json.utf16Decode r r2)))
+     | some (r2, v3) =>
+       if Json.utf16Decode r r2 = 0xFFFD then none
+       else some (v3, acc ++ encodeRune (Json.utf16Decode r r2)))
   | _ => none
 
 /-- with the guard `len(v) < 6` none of `v[0]`, `v[1]`, `v[2:6]`, `v[6:]` is out of range -/
@@ -589,14 +604,18 @@ theorem lowSurrogateC_eq (r : Nat) (v b : Bytes) : lowSurrogateC true r v b = .o
         simp only [Res.ok_bind, Res.pure_eq]
         by_cases hy : y = 0x75
         · subst hy
-          rw [if_neg (by simp), slice26, from6]
+          rw [if_neg (by simp), slice26]
           simp only [Res.ok_bind]
           unfold lowSurrogate
           simp only []
           rw [hexDigitsC_hex4]
           cases hexDigitsC [a, b', c, d] 0 with
           | none => rfl
-          | some r2 => rfl
+          | some r2 =>
+            simp only [Option.map_some]
+            by_cases hd : Json.utf16Decode r r2 = 0xFFFD
+            · rw [if_pos hd, if_pos hd]
+            · rw [if_neg hd, if_neg hd, from6]; rfl
         · rw [if_pos (by simpa using hy)]
           unfold lowSurrogate
           split
@@ -708,6 +727,8 @@ theorem quotedSwitch_length (c : Nat) (t acc v' acc' : Bytes) (h : quotedSwitch 
             rw [hh2] at h
             have h2 := hex v'' w2 r2 hh2
             simp only [] at h
+            split at h
+            · cases h
             injection h with h; injection h with h _
             subst h
             simp only [List.length_cons] at h1
@@ -825,6 +846,12 @@ example : parseQuotedIdentifierC
 example : parseQuotedIdentifierC [0x22, 0x5C, 0x75, 0x31, 0x32, 0x22] = .ok none := rfl
 /-- `"\ud83d\u12"`: the error return of the guard `len(v) < 6` -/
 example : parseQuotedIdentifierC [0x22, 0x5C, 0x75, 0x64, 0x38, 0x33, 0x64, 0x5C, 0x75, 0x31, 0x32, 0x22] = .ok none := rfl
+/-- FX28: `"\ud83d\u0041"` (a high surrogate followed by an escape that is no low surrogate) and `"\ude00\ud83d"` (low,
+    then high): the error return after `utf16.DecodeRune` gave U+FFFD (before the fix: U+FFFD, the second escape swallowed) -/
+example : parseQuotedIdentifierC
+    [0x22, 0x5C, 0x75, 0x64, 0x38, 0x33, 0x64, 0x5C, 0x75, 0x30, 0x30, 0x34, 0x31, 0x22] = .ok none := rfl
+example : parseQuotedIdentifierC
+    [0x22, 0x5C, 0x75, 0x64, 0x65, 0x30, 0x30, 0x5C, 0x75, 0x64, 0x38, 0x33, 0x64, 0x22] = .ok none := rfl
 /-- a control byte: the error return of the first loop -/
 example : parseQuotedIdentifierC [0x22, 0x61, 0x09, 0x22] = .ok none := rfl
 /-- a 1-byte token: `s[1:0]` panics — the hypothesis `2 ≤ len(s)` cannot be dropped -/
